@@ -79,3 +79,49 @@ def exhaustive_small(maxlen):
         for seq in itertools.product(alphabet, repeat=n):
             out.append(("ex-%d-%d" % (n, len(out)), ["hash 2"] + list(seq) + ["sz", "it"]))
     return out
+
+# ---- raw scripts: compared with the POINTER-LEVEL model only (the chain-level model has no such op).
+# "rh" calls the private rehash() directly, so that rehash also runs at loads where the new capacity max(10, 2*size) is
+# NOT a multiple of the old one: several old buckets then merge into one new bucket and the order in which rehash walks
+# the old table (and each chain) becomes visible in the chain order of the new table.
+
+def gen_raw_case(rng, n_ops):
+    kind = rng.choice([0, 0, 2, 3, 4])
+    base = gen_case(rng, n_ops, kind=kind, keyspace=rng.choice([24, 50, 200, 1 << 20]))
+    lines = [base[0]]
+    p = rng.choice([0.04, 0.1, 0.25])
+    for l in base[1:]:
+        lines.append(l)
+        if rng.random() < p:
+            lines.append("rh")
+            if rng.random() < 0.15:
+                lines.append("rh")          # twice in a row: same capacity, every chain reversed
+    return lines
+
+def raw_corpus():
+    cs = []
+    # identity hash, capacity 20 -> 14: keys 0, 28, 14 sit in old buckets 0, 8, 14 and all move to new bucket 0
+    cs.append(("raw-shrink-merge", ["hash 0"] + ["i %d %d" % (k, k + 1) for k in (0, 14, 28, 1, 15, 29, 2, 16, 30, 3, 17)] +
+               ["r 3", "r 17", "r 30", "r 2", "rh", "it", "g 28", "r 14", "rh", "it", "sz"]))
+    cs.append(("raw-empty", ["hash 0", "rh", "rh", "it", "x 5 5", "rh", "r 5", "rh", "x 6 6", "it", "sz"]))
+    cs.append(("raw-grow-early", ["hash 2"] + ["i %d 1" % k for k in range(7)] + ["rh", "it"] + ["i %d 2" % k for k in range(7, 15)] +
+               ["rh", "it", "r 0", "r 3", "r 6", "rh", "it", "sz"]))
+    cs.append(("raw-const-reverse", ["hash 1"] + ["i %d 1" % k for k in range(6)] + ["rh", "it", "rh", "it", "r 0", "r 5", "rh", "it", "sz"]))
+    cs.append(("raw-high-bits", ["hash 4"] + ["i %d 1" % (k << 28) for k in (1, 15, 29, 43, 2, 16, 30)] + ["r %d" % (2 << 28), "rh", "it", "sz"]))
+    return cs
+
+def raw_exhaustive(maxlen):
+    """All op sequences up to maxlen over keys {0, 14, 28, 5} (identity hash; 0, 14, 28 collide for capacity 14 but
+    not for 10 or 20) with insert-by-operator[], remove and the direct rehash()."""
+    import itertools
+    alphabet = ["rh"]
+    for k in (0, 14, 28, 5):
+        alphabet += ["x %d 5" % k, "r %d" % k]
+    prefix = ["hash 0"] + ["i %d 1" % k for k in (1, 2, 3, 4)]      # size 4: rehash() gives capacity 10, with 2 more 12, 14
+    out = []
+    for n in range(1, maxlen + 1):
+        for seq in itertools.product(alphabet, repeat=n):
+            if "rh" not in seq:
+                continue
+            out.append(("rx-%d-%d" % (n, len(out)), prefix + list(seq) + ["sz", "it"]))
+    return out
